@@ -34,6 +34,60 @@ WHERES = {
     "a1by": ("a = 1 AND b = 'y'", lambda d: d.get("a") == 1 and d.get("b") == "y"),
     "ct": ("c = TRUE", lambda d: d.get("c") is True),
 }
+# predicates for query-level WHERE (C08); evaluated here on the stored row's
+# key, i.e. on the dimensions the table groups by
+# NULL handling follows goexpr (the trusted base for the truth of an atomic
+# predicate): nil equals nothing, differs from everything, and sorts below
+# every value; LIKE without wildcards is case-insensitive equality.
+def _num(v):
+    return isinstance(v, (int, float)) and not isinstance(v, bool)
+
+
+QPREDS = {
+    "qa1": ("a = 1", lambda d: d.get("a") == 1),
+    "qby": ("b = 'y'", lambda d: d.get("b") == "y"),
+    "qand": ("a = 1 AND b = 'y'", lambda d: d.get("a") == 1 and d.get("b") == "y"),
+    "qor": ("a = 1 OR b = 'x'", lambda d: d.get("a") == 1 or d.get("b") == "x"),
+    "qne": ("b <> 'x'", lambda d: d.get("b") != "x"),
+    "qnull": ("b IS NULL", lambda d: d.get("b") is None),
+    "qnotnull": ("a IS NOT NULL", lambda d: d.get("a") is not None),
+    "qin": ("b IN ('y', 'z')", lambda d: d.get("b") in ("y", "z")),
+    "qlike": ("b LIKE 'X'", lambda d: d.get("b") == "x"),
+    "qlikep": ("b LIKE '%y%'", lambda d: isinstance(d.get("b"), str) and "y" in d.get("b")),
+    "qlt": ("a < 1", lambda d: d.get("a") is None or (_num(d.get("a")) and d.get("a") < 1)),
+    "qgt": ("a > 0", lambda d: _num(d.get("a")) and d.get("a") > 0),
+    "qnest": ("(a = 0 OR a = 1) AND b = 'x'", lambda d: d.get("a") in (0, 1) and d.get("b") == "x"),
+}
+
+
+def parse_key(keystr):
+    """Dimensions of a canonical key string (values as the generators wrote them)."""
+    out = {}
+    for part in keystr.split(","):
+        if not part:
+            continue
+        k, v = part.split("=", 1)
+        if v == "<nil>":
+            out[k] = None
+        elif v in ("true", "false"):
+            out[k] = v == "true"
+        else:
+            try:
+                out[k] = int(v)
+            except ValueError:
+                try:
+                    out[k] = float(v)
+                except ValueError:
+                    out[k] = v
+    return out
+
+
+def keysat(tables):
+    keys = set()
+    for t in tables:
+        for k in KEYS:
+            keys.add(t.proj(k))
+    return {k: set(q for q, (_, pred) in QPREDS.items() if pred(parse_key(k))) for k in sorted(keys)}
 # field ids: SQL and the value they aggregate
 FIELDS = {
     "f": ("SUM(w) AS f", "w"),
@@ -203,6 +257,7 @@ def constants_module(name, extends, tables, extra=None):
     }
     if extends.startswith("Trace"):
         defs["c_GProj"] = RawTLA(tla_fn(gproj(tables)))
+        defs["c_KeySat"] = RawTLA(tla_fn(keysat(tables)))
     if extra:
         defs.update(extra)
     lines = ["---- MODULE %s ----" % name, "EXTENDS %s" % extends]
